@@ -501,6 +501,13 @@ package zygo
 // room for per-activation state
 //@ writers C04 Loop | stmtname, label, scopeDepth, loopStart, loopLen, breakOffset, continueOffset | (*Generator).GenerateForLoop
 //@ fieldsclosed C04 Loop | stmtname, label, scopeDepth, loopStart, loopLen, breakOffset, continueOffset
+// a macro (re)definition touches the macro table only once its body has compiled: a definition that
+// fails leaves the table, and with it the definition in force, as it was
+//@ func (*Generator).GenerateDefmac
+//@ ghost bodyCompiled := false @entry
+//@ ghost bodyCompiled := ret1 == nil @after call buildSexpFun[0]
+//@ C05 assert registered-only-after-the-body-compiled @before call mapstore[*]: bodyCompiled
+//@ C05 assert nothing-is-unregistered @before call delete[*]: false
 // mdef: every target slot is filled with a symbol before the value is compiled; the bind
 // instruction hands each one to BindSymbol, which dereferences it
 //@ func (*Generator).GenerateMultiDef
